@@ -151,6 +151,7 @@ def obligations(tier: str):
     add("lexicase", "lexicase_epsilon_1case", cases=1, M=3, K=2, table=3, epsilon=True)
     add("lexicase", "lexicase_epsilon_2cases", cases=2, M=3, K=1 if not T else 2, table=2, epsilon=True, timeout=200)
     if T:
-        add("lexicase", "lexicase_3cases", cases=3, M=2, K=2, table=2)
-        add("lexicase", "lexicase_2cases_target3", cases=2, M=2, K=3, table=2)
+        # (target == population size is lexicase_2cases_pop2; lexicase selects without replacement, so a
+        # target beyond the population size is outside the property's "never more copies than present")
+        add("lexicase", "lexicase_3cases", cases=3, M=2, K=1, table=2)
     return obs
